@@ -18,7 +18,7 @@ ID = "C09"
 LEVEL = "model_checking"
 RULE = ("windows: all 3-windows over (5 states x 3 widths) for first-order upwind convection (a=+-) at CFL {1,1/2}, all 5-windows over the state "
         "alphabet for muscl x 4 limiters, convection a=+- and Burgers, CFL {1/2,1/4}; BFS: every data assignment of the alphabet on periodic "
-        "meshes n in 3..5 (thorough 6) x {extrapol1, muscl x 4} x {explicit, rk2_heun, rk3ssp} x CFL set, depth 3 (states after a step are new, "
+        "meshes n in 3..5 (thorough 6; plus 4 other placements x0, dx of the same meshes) x {extrapol1, muscl x 4} x {explicit, rk2_heun, rk3ssp} x CFL set, depth 3 (states after a step are new, "
         "non-alphabet states). non-trivial = non-constant window/data")
 ASSUMPTIONS = ["cell values between alphabet letters are not explored (the BFS does reach non-alphabet values after the first step)",
                "round-off tolerance 16 eps x max|u|", "Burgers data identically zero is excluded (no finite time step, see known finding under C03)"]
@@ -184,6 +184,11 @@ def run(ctx):
                 for cfl in cfls:
                     for n in ((3, 4, 5, 6) if th else (3, 4, 5)):
                         cfg2.append((mname, rname, iname, cfl, ("uni", n, float(n), 0.0), S if n <= 5 else space.S_QUICK, 3))
+                    # the same meshes placed elsewhere (first cell centred on 0, origin inside the second cell, far from 0, another cell size):
+                    # the periodic seam must not depend on where the mesh sits
+                    if iname == "explicit" or th:
+                        for mspec in (("uni", 4, 4.0, -0.5), ("uni", 3, 3.0, -1.5), ("uni", 4, 0.4, -0.05), ("uni", 5, 5.0, 7.25)):
+                            cfg2.append((mname, rname, iname, cfl, mspec, space.S_QUICK if mspec[1] == 5 else S, 3))
                 if rname == "extrapol1" and mname != "burgers":
                     for wv in space.width_vectors(3) + (space.width_vectors(4)[::3] if th else space.width_vectors(4)[::9]):
                         cfg2.append((mname, rname, iname, 1.0 if iname == "explicit" else 0.5, ("w", wv), space.S_QUICK, 3))
